@@ -421,14 +421,25 @@ impl Catalog {
                     tree.with_cell_at(pos, |bytes| {
                         let mut tuple = Tuple::from_slice_unchecked(bytes)?;
                         let xmin = tuple.xmin();
+                        // VACUUM runs alone (every other transaction was aborted first), so a deleter
+                        // either committed or rolled back. Only a committed delete removes the row.
+                        let delete_rolled_back = tuple
+                            .xmax()
+                            .is_some_and(|xmax| snapshot.is_transaction_aborted(xmax));
 
-                        let freed = if snapshot.is_transaction_aborted(xmin) || tuple.is_deleted() {
+                        let freed = if snapshot.is_transaction_aborted(xmin)
+                            || (tuple.is_deleted() && !delete_rolled_back)
+                        {
                             let freed = tuple.full_data().len();
                             tuples_to_remove.push(tuple);
                             freed
                         } else {
+                            if delete_rolled_back {
+                                // The aborted set is forgotten after this VACUUM: take the mark off now.
+                                tuple.undelete()?;
+                            }
                             let freed = tuple.vaccum_with(oldest_active_xid, schema)?;
-                            if freed > 0 {
+                            if freed > 0 || delete_rolled_back {
                                 tuples_to_vaccum.push(tuple);
                             };
                             freed
